@@ -20,7 +20,15 @@ theorem cands_complete (net : Net) (s : State) (a : Act) (h : (step net s a).isS
     refine ⟨c, hc, k, ?_, rfl⟩
     have := lt_of_getElem? hpl
     omega
-  | @getStop n c nd rest hnd hn hc hq =>
+  | @getStop n c nd rest hnd hn hc hq _ =>
+    simp only [cands, List.mem_append, List.mem_flatMap, List.mem_range]
+    right
+    refine ⟨n, lt_of_getElem? hnd, ?_⟩
+    rw [hnd]
+    simp only [List.mem_cons, List.mem_flatMap, List.mem_map, List.mem_range]
+    right
+    exact ⟨c, hc, 0, by omega, rfl⟩
+  | @getStopWait n c nd rest hnd hn hc hq _ =>
     simp only [cands, List.mem_append, List.mem_flatMap, List.mem_range]
     right
     refine ⟨n, lt_of_getElem? hnd, ?_⟩
